@@ -33,6 +33,14 @@
 (*     in the negative-control configurations, where                       *)
 (*     TagModelMeetsProperty is the invariant TLC must refute;             *)
 (* and prints every complete case as one JSON line for the driver.         *)
+(* Round 3: every list is printed with its object-sharing layouts          *)
+(* (LayoutsOf in C12_CSE: which equal occurrences are ONE object - all     *)
+(* occurrences of a repeated value, only the operands of one node, pairs,  *)
+(* two values at once, everything hash-consed); the driver builds the list *)
+(* once per layout.  SameNodeRoots: every taggable kind repeated ONLY as   *)
+(* operands of one node (sum, product, call, quotient, power; also nested  *)
+(* in a denominator).  The identity negative controls check the model for  *)
+(* every layout.                                                           *)
 (* Mode "rand": -simulate grows random deeper lists.                       *)
 (***************************************************************************)
 EXTENDS C12_CSE, C12_Env, Json
@@ -100,6 +108,15 @@ Ops1(X) == { B("Power", X, KI(2)), Call(ff, << X >>), N("Product", << KI(2), X >
 \* a list under construction is carried as a Tup node so that Expr's hole filling applies
 L(es) == N("Tup", es)
 TagRootsNeg == { L(<< N("Sum", << A, A >>) >>), L(<< N("Product", << A, A >>) >>) }
+\* round 3: a repeated operation that occurs ONLY as operands of one node (whether the two
+\* operands are one object or two is the layout's business)
+SameNodeRoots ==
+    UNION { { L(<< N("Sum", << X, vc, X >>) >>), L(<< N("Product", << X, X, vc >>), vc >>),
+              L(<< B("Quotient", KI(2), N("Product", << X, X >>)) >>),
+              L(<< Call(ff, << X, X >>) >>), L(<< B("Quotient", X, X) >>),
+              L(<< N("Sum", << N("Product", << X, vc, X >>), KI(1) >>), N("Sum", << X, X >>) >>) } :
+            X \in { S, P, Q, B("FloorDiv", va, vb), B("Remainder", va, vb), B("Power", va, KI(2)), C2,
+                    C1, W0 } }
 TagRootsQuick ==
        { L(<< o >>) : o \in Ops2(A, A) \cup Ops1(A)
                           \cup { B("FloorDiv", A, A), B("Remainder", A, A), B("Power", A, A) } }
@@ -193,7 +210,7 @@ PosHoleRoots ==
     ELSE { L(<< Fill1(s, M), Bh >>) : s \in UNION { Puts(t) : t \in HostTemplates } }
          \cup { L(<< Call(IfE(Cmp(M, "<", vc), ff, gg), << Cc >>), M >>) }
 TagRoots == IF Tier = "neg" THEN TagRootsNeg \cup PosRootsNeg
-            ELSE KindRoots \cup PosRoots(HostTemplates) \cup PosHoleRoots
+            ELSE KindRoots \cup SameNodeRoots \cup PosRoots(HostTemplates) \cup PosHoleRoots
                  \cup (IF Tier = "quick" THEN TagRootsQuick ELSE TagRootsThorough)
 
 \* ---- the helper cells -----------------------------------------------------
@@ -248,8 +265,8 @@ Ins == cas.tr.c
 \*         satisfies every invariant), and the event-level sharing predicate implies the
 \*         (more lenient) tree-level one
 \*   d   : does the transcribed tagger meet the property?  (design level)
-ModelData(ins) ==
-    LET outs == TagImpl(ins)
+ModelData(ins, lay) ==
+    LET outs == TagImplL(ins, lay)
         evs  == CanonicalEvents(outs, Envs[1])
         run  == RunEvents(NewInst(1), evs, Envs)
         I    == run.I
@@ -275,11 +292,18 @@ ModelData(ins) ==
 
 \* negative controls only: the transcription meets the property up to the one
 \* design-level class known on the unchanged code
+\* (the walk of the unchanged transcription never looks at the layout: one layout says all;
+\* the identity controls are checked under every layout of the list)
+Rich == Tier = "thorough" /\ Mode # "rand"
+Lays(ins) == LayoutsOf(ins, Rich)
+LaysForModel(ins) == IF Bug \in IdentityBugs THEN {NoLayout} \cup SeqToSet(LayoutsOf(ins, TRUE))
+                     ELSE {NoLayout}
 TagModelMeetsProperty ==
     (Complete /\ IsTag) =>
-        LET d == ModelData(Ins).d IN
-        d.v = "OK" \/ (d.v \in {"not-shared", "RepeatedOpOnce"}
-                       /\ d.pat = "in-preexisting-prefixed-wrapper")
+        \A lay \in LaysForModel(Ins) :
+            LET d == ModelData(Ins, lay).d IN
+            d.v = "OK" \/ (d.v \in {"not-shared", "RepeatedOpOnce"}
+                           /\ d.pat = "in-preexisting-prefixed-wrapper")
 
 \* ---- TLC invariants of every run ---------------------------------------------
 \* the helper transcriptions satisfy their tables in every cell
@@ -297,9 +321,13 @@ HelperModelInv ==
 ModelCacheInv_Emit ==
     Complete =>
       IF IsTag
-      THEN LET m == ModelData(Ins) IN
+      THEN LET m  == ModelData(Ins, NoLayout)
+               sh == Lays(Ins)
+           IN
            /\ m.inv
-           /\ PrintT(ToJson([kind |-> "tag", ins |-> Ins]))
+           \* every generated layout is in normal form
+           /\ \A i \in 1..Len(sh) : LayoutOK(L(Ins), sh[i])
+           /\ PrintT(ToJson([kind |-> "tag", ins |-> Ins, shs |-> sh]))
            /\ ((m.d.v = "OK" /\ m.d.pat = "")
                \/ PrintT(ToJson([design |-> m.d.v, pat |-> m.d.pat, dins |-> Ins])))
       ELSE PrintT(ToJson([kind |-> "wrap", fn |-> cas.fn, arg |-> cas.arg,
